@@ -653,8 +653,11 @@ std::vector<surf_point> compute_descriptors(
         // ignore points that are close to the edge of the image
         const double border = 31;
         const interest_point& p = points[i];
-        const unsigned long border_size = static_cast<unsigned long>(border*points[i].scale)/2;
-        if (border_size <= p.y() && (p.y() + border_size) < N0 &&
+        // computed in floating point: a huge, negative or non-finite scale must
+        // not wrap around to a small border (every comparison with NaN fails)
+        const double border_size = std::floor(std::floor(border*points[i].scale)/2);
+        if (border_size >= 0 &&
+            border_size <= p.y() && (p.y() + border_size) < N0 &&
             border_size <= p.x() && (p.x() + border_size) < N1) {
             surf_point sp;
 
